@@ -211,24 +211,26 @@ def gen_interleave(c, rng):
         # the open multi-value list of one member is closed by something that lives in the OTHER member - the --endvalues
         # argument (handler flag) or a sub-group argument - and a free value follows: it belongs to the positional argument
         lst = Arg("vi0", "l", "list")
-        lst.multi, lst.init, lst.member = True, [], 0
+        lm = rng.randrange(2)           # the list in the first or in the second member, the closing key in the other one
+        lst.multi, lst.init, lst.member = True, [], lm
         pos = Arg("s9", None, None, spec="-")
         pos.init, pos.member = "none", rng.randrange(2)
         oth = Arg("i0", "n", "num")
-        oth.init, oth.member = "0", 1
+        oth.init, oth.member = "0", 1 - lm
         cfg.args = [lst, oth, pos] if rng.random() < 0.5 else [pos, lst, oth]
         vals = [str(rng.randint(0, 99)) for _ in range(rng.randint(1, 3))]
         free = rng.choice(["zz", "out.txt", "7"])
         exp = {"vi0": [int(v) for v in vals], "s9": free, "i0": 0}
         if rng.random() < 0.5:
             cfg.flags = HF["endValues"]
-            gfl[1] = HF["endValues"]
+            gfl[1 - lm] = HF["endValues"]
             words = [rng.choice(["-l", "--list"])] + vals + ["--endvalues", free]
             kind = "list-closed-by-endvalues-of-other-member"
         else:
             sx = Arg("i5", "x", None)
             sx.init = "0"
             cfg.subgroup = ("S,sub", 0, [sx])
+            cfg.subgroup_member = 1 - lm
             words = [rng.choice(["-l", "--list"])] + vals + [rng.choice(["-S", "--sub"]), "-x", "7", free]
             exp["i5"] = 7
             kind = "list-closed-by-sub-group-of-other-member"
